@@ -406,6 +406,20 @@ def check_origin_zero(case, ctx):
     ctx.check(bool(o.is_physical(1e-13, 1e-13)), f"origin_physical:{t}")
     eq_lo, eq_hi, in_lo, in_hi, _ = defects(t, basis, xo, m)
     ctx.check(eq_hi <= 1e-13 and in_hi <= 1e-13, f"origin_physical_ref:{t}", f"{eq_hi} {in_hi}")
+    # the in-place variant: after set_zero() the SAME object (already queried above and here) denotes the zero operator,
+    # and every verdict is about the zero operator, exactly as for a fresh object built from zeros
+    q2 = build.make(c_sys, t, x, m=m, on_para_eq_constraint=flag)
+    before = (q2.is_eq_constraint_satisfied(), q2.is_ineq_constraint_satisfied(), q2.is_physical())
+    q2.set_zero()
+    ctx.close(build.stacked_of(q2), np.zeros_like(x), 0.0, f"set_zero_value:{t}")
+    fresh_zero = build.make(c_sys, t, np.zeros_like(x), m=m, on_para_eq_constraint=flag)
+    for a in (None, 1e-13, 1e-6, 1e-2):
+        got = (bool(q2.is_eq_constraint_satisfied(a)), bool(q2.is_ineq_constraint_satisfied(a)), bool(q2.is_physical(a, a)))
+        want = (bool(fresh_zero.is_eq_constraint_satisfied(a)), bool(fresh_zero.is_ineq_constraint_satisfied(a)),
+                bool(fresh_zero.is_physical(a, a)))
+        ctx.check(got == want, f"set_zero_verdicts_equal_fresh_zero_object:{t}", f"atol={a}: used {got} fresh {want} (before set_zero: {before})")
+        # the zero operator is positive semidefinite but violates every equality constraint (trace 0, sum 0, no e0 row)
+        ctx.check(got == (False, True, False), f"set_zero_verdicts_are_those_of_the_zero_operator:{t}", f"atol={a}: {got}")
     ctx.nontrivial(case["defect"]["kind"] != "none" or (m or 0) >= 3)
 
 
